@@ -48,6 +48,25 @@ type vectorSelector struct {
 
 	shard     int
 	numShards int
+
+	// selectTimestamp makes the selector yield the timestamp of the selected
+	// sample (in seconds) instead of its value.
+	selectTimestamp bool
+}
+
+// NewTimestampSelector creates an operator which selects a vector of series
+// and yields the timestamps of the selected samples as values. It is the
+// operand of timestamp() applied directly to a vector selector.
+func NewTimestampSelector(
+	pool *model.VectorPool,
+	selector engstore.SeriesSelector,
+	queryOpts *query.Options,
+	offset time.Duration,
+	shard, numShards int,
+) model.VectorOperator {
+	o := NewVectorSelector(pool, selector, queryOpts, offset, shard, numShards).(*vectorSelector)
+	o.selectTimestamp = true
+	return o
 }
 
 // NewVectorSelector creates operator which selects vector of series.
@@ -121,9 +140,12 @@ func (o *vectorSelector) Next(ctx context.Context) ([]model.StepVector, error) {
 			if len(vectors) <= currStep {
 				vectors = append(vectors, o.vectorPool.GetStepVector(seriesTs))
 			}
-			_, v, ok, err := selectPoint(series.samples, seriesTs, o.lookbackDelta, o.offset)
+			t, v, ok, err := selectPoint(series.samples, seriesTs, o.lookbackDelta, o.offset)
 			if err != nil {
 				return nil, err
+			}
+			if ok && o.selectTimestamp {
+				v = float64(t) / 1000
 			}
 			if ok {
 				vectors[currStep].SampleIDs = append(vectors[currStep].SampleIDs, series.signature)
